@@ -85,7 +85,7 @@ def gen_seq(rng, n):
                                    f"g5 {via} RunString {i} {hexs('TITLE t' + chr(10))}", f"g5 {via} RunFile {i} {hexs('/nonexistent/in.pqi')}",
                                    f"loadbad {via} {i}"]))
         elif r < 0.955:
-            ops.append(f"loaddb {via} {i}")
+            ops.append(f"{rng.choice(['loaddb', 'loaddb', 'loadstr', 'loadstrbad'])} {via} {i}")
         elif r < 0.985:
             f = rng.choice(["-", "-", hexs("user.sel"), hexs("other name.sel")])
             ops.append(f"defsel {via} {i} {rng.choice([1, 2, 5, 5, 77])} {f}")
@@ -127,7 +127,7 @@ def gen_seq_sel(rng, n):
         elif r < 0.91:
             ops.append(f"g1 GetCurrentSelectedOutputUserNumber {i}")
         elif r < 0.94:
-            ops.append(rng.choice([f"loaddb {via} {i}", f"loadbad {via} {i}"]))
+            ops.append(rng.choice([f"loaddb {via} {i}", f"loadbad {via} {i}", f"loadstr {via} {i}", f"loadstrbad {via} {i}"]))
             if rng.random() < 0.8:
                 # read back everything a load may or may not reset: per-number switches and names of several numbers
                 for k in rng.sample(nums, 2) + [1]:
@@ -141,6 +141,30 @@ def gen_seq_sel(rng, n):
         else:
             ops.append(rng.choice([f"destroy {i}", "create", f"nth {i} {rng.choice([0, 1, 2])}", f"g1 GetSelectedOutputCount {i}"]))
     return ops
+
+
+def load_matrix(rng):
+    """what a load preserves and what it resets: every combination of the three file switches that LoadDatabase* saves and
+    restores around the load (output, error, log) x both loaders x successful and failing load, with random values of all other
+    settings; afterwards EVERY setting is read back through the three bindings"""
+    seqs = []
+    for bits in range(8):
+        for op in ("loaddb", "loadbad", "loadstr", "loadstrbad"):
+            ops = ["create"]
+            for k, name in enumerate(("OutputFile", "ErrorFile", "LogFile")):
+                ops.append(f"g4 {rng.choice(VIA)} Set{name}On 0 {(bits >> k) & 1}")
+            for name in ("OutputString", "ErrorString", "Error", "LogString", "DumpFile", "DumpString"):
+                ops.append(f"g4 {rng.choice(VIA)} Set{name}On 0 {rng.choice([0, 1])}")
+            n = rng.choice([2, 5, 77])
+            ops += [f"g4 c SetCurrentSelectedOutputUserNumber 0 {n}", f"g4 {rng.choice(VIA)} SetSelectedOutputFileOn 0 1",
+                    f"g4 {rng.choice(VIA)} SetSelectedOutputStringOn 0 {rng.choice([0, 1])}",
+                    f"g5 {rng.choice(VIA)} SetSelectedOutputFileName 0 {hexs('kept.sel')}", f"g5 {rng.choice(VIA)} SetLogFileName 0 {hexs('my.log')}",
+                    f"g5 c AccumulateLine 0 {hexs('TITLE acc')}", f"{op} {rng.choice(VIA)} 0"]
+            ops += [f"g1 Get{k}On 0" for k in SW] + ["g1 GetCurrentSelectedOutputUserNumber 0"] + [f"g2 Get{k}FileName 0 48" for k in NM]
+            ops += [f"g4 c SetCurrentSelectedOutputUserNumber 0 {n}", "g1 GetSelectedOutputFileOn 0", "g1 GetSelectedOutputStringOn 0",
+                    "g2 GetSelectedOutputFileName 0 48", "g1 RunAccumulated 0"]
+            seqs.append(ops)
+    return seqs
 
 
 def unhexd(h):
@@ -456,7 +480,9 @@ def explore(ctx, runner, ok):
         except Exception:
             pass
     ctx.cov["corpus_cases"] = len(corpus)
-    seqs = corpus + [(gen_seq_sel if k % 4 == 3 else gen_seq)(ctx.rng, ctx.rng.randint(2, 40)) for k in range(nseq)]
+    matrix = load_matrix(ctx.rng)
+    ctx.cov["load_matrix_sequences"] = len(matrix)
+    seqs = corpus + matrix + [(gen_seq_sel if k % 4 == 3 else gen_seq)(ctx.rng, ctx.rng.randint(2, 40)) for k in range(nseq)]
     if ctx.tier == "thorough" or not ok:
         # exhaustive: all sequences of length <= 4 over the alphabet
         for L in range(1, 5):
